@@ -263,6 +263,9 @@ fn run_ops(case: &str) -> (String, String, String) {
                             2 => "exit 4",
                             3 => "false",
                             4 => ": ${U?}",
+                            // the action changes `$?` and then diverts WITHOUT a status: `$?` must be restored
+                            5 => "false; return",
+                            6 => "! :; return",
                             _ => "st 7",
                         };
                         Action::Command(format!("probe {n}; {tail}").into())
@@ -935,7 +938,7 @@ fn run_multi_case(ws: &[&str]) -> (String, String) {
     for w in &ws[3..] {
         let Some((s, k)) = w.split_once(':') else { return bad() };
         let Some(n) = sig_of(s) else { return bad() };
-        if !["P", "R", "E", "F", "N", "I"].contains(&k) {
+        if !["P", "R", "E", "F", "N", "I", "Q", "B"].contains(&k) {
             return bad();
         }
         sks.push((s, n, k));
@@ -949,6 +952,9 @@ fn run_multi_case(ws: &[&str]) -> (String, String) {
             "E" => format!("probe {tag}; exit 4"),
             "F" => format!("probe {tag}; false"),
             "I" => format!("probe {tag}; : ${{U?}}"),
+            // `$?` changed by the action, then a divert without a status: the caller's `$?` comes back
+            "Q" => format!("probe {tag}; false; return"),
+            "B" => format!("probe {tag}; ! :; return"),
             _ => format!("probe {tag}; trap \"probe {}\" {name}", tag + 500),
         };
         script.push_str(&format!("trap '{act}' {name}\n"));
@@ -1909,7 +1915,7 @@ fn random_op(r: &mut Rng, sigs: &[&str]) -> String {
                 0 => "d".to_string(),
                 1 => "i".to_string(),
                 2 => format!("c{}", 1 + r.below(3)),
-                _ => format!("c{}", 1000 * r.below(5) + 1 + r.below(3)),
+                _ => format!("c{}", 1000 * r.below(7) + 1 + r.below(3)),
             };
             format!("set {c} {a} {}", if r.chance(1, 4) { 1 } else { 0 })
         }
@@ -2090,7 +2096,7 @@ fn main() {
     //    2-3 distinct signals, every assignment of body kinds (plain / return / exit / false),
     //    deliveries in the opposite order, then three boundaries
     let pool = ["INT", "TERM", "USR1", "CHLD"];
-    let kinds = [0usize, 1, 2, 3, 4];
+    let kinds = [0usize, 1, 2, 3, 4, 5, 6];
     let mut choices: Vec<Vec<&str>> = vec![];
     for a in pool {
         for b in pool {
@@ -2196,6 +2202,24 @@ fn main() {
         }
     }
     let _ = count;
+    // 5b. actions that CHANGE `$?` and then divert without a status (`false; return`, `! :; return`), caught inside a
+    //     function / nested group / dot script: the probes right after show whether `$?` was restored
+    for sigs in [["INT", "USR1"], ["USR1", "TERM"], ["TERM", "INT"]] {
+        for (k1, k2) in [("Q", "P"), ("P", "Q"), ("B", "P"), ("Q", "R"), ("Q", "Q"), ("B", "F"), ("F", "B"), ("Q", "E")] {
+            for layout in 0..3 {
+                for mode in 0..2 {
+                    lazy(&format!("multi {layout} {mode} 0 {}:{k1} {}:{k2}", sigs[0], sigs[1]));
+                }
+            }
+        }
+    }
+    for s in ["INT", "USR1", "TERM"] {
+        for k in ["Q", "B"] {
+            for layout in 0..3 {
+                lazy(&format!("multi {layout} 0 1 {s}:{k}"));
+            }
+        }
+    }
 
     // 6. `tb`: the trap built-in's forms, kill under every disposition, subshells, wait, EXIT
     let mut emit_tb = |case: String, _unused: &mut u8| lazy(&case);
